@@ -77,6 +77,7 @@ type Pool struct {
 	Link    bool     `json:"link"` // C08: record OPTIONS / HEAD / GET answers of the same path next to every served route
 	Dump    bool     `json:"dump"` // record the shape of the real tree after the battery (structural refinement, drift report)
 	TH      []Op     `json:"th"`   // requests handed to the bundled Trace helper (C18)
+	Reqs    []Op     `json:"reqs"` // group family: the request product every following case is probed with
 }
 
 type Op struct {
